@@ -132,11 +132,42 @@ def _packaging(fn):
         if _texts(b) != ["default = [default] * n_destinations"]:
             raise Unrecognised(f"FieldWrapper.default: packaging arm body {_texts(b)}")
         k = {"utils.is_tuple_or_list(self.field.type) and len(default) != n_destinations": "PkContainerTypeAndLenNeN",
-             "not isinstance(default, list)": "PkNotIsList"}.get(unparse(test))
+             "not isinstance(default, list)": "PkNotIsList", "single_value": "PkSingleValue"}.get(unparse(test))
         if k is None:
             raise Unrecognised(f"FieldWrapper.default: packaging test {unparse(test)}")
         chain.append(k)
+    if "PkSingleValue" in chain:
+        _single_value(body)
     return chain
+
+
+def _single_value(body):
+    """`single_value` must mean: the default is one value (not set from outside, not the per-destination list)."""
+    if sum(1 for s in body if unparse(s) == "single_value = True") != 1:
+        raise Unrecognised("FieldWrapper.default: single_value is not initialised to True exactly once")
+    chains = [s for s in body if isinstance(s, ast.If) and unparse(s.test) == "self._default is not None"]
+    if len(chains) != 1:
+        raise Unrecognised("FieldWrapper.default: source chain")
+    arms, els = if_chain(chains[0])
+    falses = 0
+    for test, b in arms:
+        tt = _texts(b)
+        if unparse(test) == "self._default is not None":
+            if tt != ["default = self._default", "single_value = False"]:
+                raise Unrecognised("FieldWrapper.default: manual-default arm")
+            falses += 1
+            continue
+        inner = [s for s in b if isinstance(s, ast.If) and unparse(s.test) == "len(self.parent.defaults) == 1"]
+        if inner:
+            if len(inner) != 1 or _texts(clean(inner[0].body)) != ["default = defaults[0]"] \
+                    or _texts(clean(inner[0].orelse)) != ["default = defaults", "single_value = False"]:
+                raise Unrecognised("FieldWrapper.default: parent-defaults arm")
+            falses += 1
+            continue
+        if any("single_value" in x for x in tt):
+            raise Unrecognised("FieldWrapper.default: single_value assigned in an unexpected arm")
+    if falses != 2 or any("single_value" in x for x in _texts(els)):
+        raise Unrecognised("FieldWrapper.default: single_value assignments")
 
 
 def _nargs(fn):
